@@ -10,9 +10,14 @@
   cache's pruning goroutine.  A step whose mutex is not available is a stutter (the goroutine
   stays blocked).  Executable, total, core-only.
 
-  `Variant` selects the code revision: `current` is /repo as it is; `copyIds` and `invalidate`
-  are the two proposed repairs (docs/C17-fix-1.diff, docs/C17-fix-2.diff); `cache := false` is
-  `--iam-cache-disable` (auth.New hands out the file service itself).
+  `Variant.current` is /repo as it is (since 6f25651: every account change INVALIDATES the cache
+  entry and bumps a generation counter; the miss path stores what it fetched only if the
+  generation is still the one it saw before fetching); `cache := false` is `--iam-cache-disable`
+  (auth.New hands out the file service itself).  `Variant.oldWriteThrough` is the code BEFORE
+  6f25651 (write-through cache, entry of CreateAccount built from Access/Secret/Role only); it is
+  kept as a REGRESSION MODEL only: the harness compares with it when its probes find that
+  behaviour again (a reverted fix), so that the failing schedules are explained; nothing is
+  claimed about the current code through it.
 
   Ghost state (`committed`, `log`) is written by the steps that decide a mutation (under the
   write lock) and never read by a step; it only serves the statements in Props/C17.lean.
@@ -63,15 +68,23 @@ def sortAccts (l : List Account) : List Account := l.foldr insertAcct []
 structure Variant where
   /-- false = `--iam-cache-disable` -/
   cache : Bool := true
-  /-- IAMCache.CreateAccount copies UserID/GroupID into the cache entry (fix 1) -/
-  copyIds : Bool := false
   /-- account changes drop the cache entry and bump a generation; the miss path only stores
-  what it fetched if the generation is still the one it saw before fetching (fix 2) -/
-  invalidate : Bool := false
+  what it fetched if the generation is still the one it saw before fetching (iam_cache.go
+  invalidate / setIfCurrent).  `false`: the write-through cache of the code before 6f25651
+  (regression model) -/
+  invalidate : Bool := true
+  /-- regression model only: its CreateAccount copies UserID/GroupID into the cache entry -/
+  copyIds : Bool := false
   deriving Repr, DecidableEq
 
 /-- /repo as it is -/
 def Variant.current : Variant := {}
+
+/-- /repo with the cache disabled (`--iam-cache-disable`) -/
+def Variant.cacheDisabled : Variant := { cache := false }
+
+/-- REGRESSION MODEL: the code before 6f25651 (write-through cache) -/
+def Variant.oldWriteThrough : Variant := { invalidate := false }
 
 structure Cfg where
   root : Account
@@ -158,7 +171,7 @@ inductive PC where
   | mFailed (e : Res)          -- update(b) failed: os.WriteFile(fname, datacopy)
   | mCache                     -- s.Unlock(); service returned nil; IAMCache's own step is next
   /- GetUserAccount -/
-  | gMiss (g : Nat)            -- iamcache.get: not found or expired (g: generation seen, fix 2)
+  | gMiss (g : Nat)            -- iamcache.get: not found or expired (g: generation seen)
   | gRLocked (g : Nat)         -- s.RLock()
   | gGot (r : Option Account) (g : Nat)   -- getIAM + map lookup
   | gFetched (a : Account) (g : Nat)      -- s.RUnlock(); service returned a   <- the yield point
@@ -187,7 +200,7 @@ structure State where
   /-- the temp file of writeTempFile -/
   temp : Option Store := none
   items : Items := []
-  /-- generation counter of the cache (only used by `Variant.invalidate`) -/
+  /-- generation counter of the cache (`icache.gen`) -/
   gen : Nat := 0
   now : Nat := 0
   /-- holder of the write lock of IAMServiceInternal (index into `calls`) -/
@@ -203,11 +216,14 @@ structure State where
 
 def State.setCall (σ : State) (i : Nat) (c : Call) : State := { σ with calls := σ.calls.set i c }
 
-/-- what CreateAccount puts into the cache: iam_cache.go 145-149 builds the entry field by field -/
+/-- regression model: what the OLD CreateAccount put into the cache (the entry was built field by
+field from Access, Secret, Role) -/
 def entryOf (v : Variant) (a : Account) : Account :=
   if v.copyIds then a else { access := a.access, secret := a.secret, role := a.role }
 
-/-- IAMCache's own step after the service acknowledged a mutation (iam_cache.go 151, 180, 190) -/
+/-- IAMCache's own step after the service acknowledged a mutation: `c.iamcache.invalidate(key)`
+in CreateAccount / DeleteUserAccount / UpdateUserAccount (the `match` below it is the write-through
+of the regression model) -/
 def cacheStep (v : Variant) (cfg : Cfg) (σ : State) (op : Op) : State :=
   if !v.cache then σ else
   if v.invalidate then { σ with items := σ.items.del op.key, gen := σ.gen + 1 } else
@@ -266,7 +282,7 @@ def stepCall (v : Variant) (cfg : Cfg) (σ : State) (i : Nat) (c : Call) : State
     | none => σ'.setCall i { c with pc := .done .noSuchUser }
     | some a => σ'.setCall i { c with pc := .gFetched a g }
   | .gFetched a g =>
-    -- iam_cache.go 169: c.iamcache.set(access, a)
+    -- c.iamcache.setIfCurrent(strings.Clone(access), a, gen)
     let σ' := if v.cache && (!v.invalidate || g == σ.gen)
       then { σ with items := σ.items.set c.op.key a (σ.now + cfg.ttl) } else σ
     σ'.setCall i { c with pc := .done (.acct a) }
